@@ -193,9 +193,9 @@ func (s *Seq) mangleScenario(r *simrt.Rand) []string {
 		}
 		path := dir + "/" + target
 		data, ok := fsys.RawRead(path)
-		kind := r.Intn(11)
+		kind := r.Intn(13)
 		switch {
-		case kind == 10:
+		case kind >= 10:
 			// structure-aware damage of the index inside schema.json: the document stays
 			// well-formed JSON of the right shape, the index becomes inconsistent
 			raw, ok := fsys.RawRead(dir + "/schema.json")
